@@ -55,6 +55,14 @@ RULE = (
     "scenario run). calendar sweep: for every day of those leap and common years (thorough: 2014-2021) Terrestrial.propagate is audited "
     "at 00:00:00 (reached across the preceding midnight), 12:00:00 and 23:59:59, and the library's day-of-year is "
     "compared with ordinal calendar arithmetic (also for every day of 1900, 2000, 2024 and 2100: century rule). "
+    "eop_config (both tiers): the behavioural configuration ([eop] LoaderName/LoaderLocation, read through "
+    "BehavioralConfig.getConfig(path)) selects each offline Earth-orientation source of {packaged loader + EOP_Predicted.dat, "
+    "local-file loader + a copy of that table, local-file loader + a harness-written table (UT1-UTC + 10 ms, x_p + 0.1 arcsec), "
+    "packaged loader + the default table named explicitly (control)} x 6 start instants inside 2021-10-06..2022-04-04 (first "
+    "day, year end, 28 Feb, last midnight, one seed-chosen) x steps {60, 300} s x k in {0, 1, 2, 288} x 9 corner sites through the "
+    "direct path; expectation = the independent FK5 model fed by the harness' own parse of the CONFIGURED table; the EOP values "
+    "the library hands out (implicit and explicit loader arguments) are compared with that parse; non-trivial there = the "
+    "configured and the default table put the site more than 2 m apart at that instant. "
     "non-trivial = start second != 0, or the elapsed time crosses midnight, or (propagate) t0 != 0, or "
     "(midrun/import) the agent is created/updated away from the scenario start, or the audited instant lies in the "
     "leap-day window 31 Jan .. 1 Mar; distinct by construction (lattice points)."
@@ -146,9 +154,9 @@ class Instant:
 
     __slots__ = ("dt", "fk5", "w_eci")
 
-    def __init__(self, dt: datetime):
+    def __init__(self, dt: datetime, fk5=None):
         self.dt = dt
-        self.fk5 = fr.FK5.from_table(dt)
+        self.fk5 = fr.FK5.from_table(dt) if fk5 is None else fk5
         # Earth rotation vector in the inertial frame: rate incl. LOD about the pole of date
         self.w_eci = self.fk5.pn @ np.array(self.fk5.omega)
 
@@ -185,11 +193,12 @@ def _shift_label(eci, dt, ecef_site, step):
     return "other"
 
 
-def audit_state(res, sub, case, eci, dt, site, item, *, nontrivial, step=0, strict_vel=True, observe=True):
-    """All clauses for one reported inertial state of a ground agent at true UTC instant ``dt``."""
+def audit_state(res, sub, case, eci, dt, site, item, *, nontrivial, step=0, strict_vel=True, observe=True, ins=None):
+    """All clauses for one reported inertial state of a ground agent at true UTC instant ``dt`` (``ins``: the independent
+    reference of that instant when it is NOT the default Earth-orientation table, see the eop_config family)."""
     lat, lon, alt = site
     ecef_site = site_ecef(lat, lon, alt)
-    ins = instant(dt)
+    ins = instant(dt) if ins is None else ins
     eci = np.asarray(eci, dtype=float).reshape(6)
     finite = bool(np.all(np.isfinite(eci)))
     ecef = eci2ecef(eci, dt) if finite else np.full(6, np.nan)
@@ -584,6 +593,10 @@ def items(tier, seed):
         out.append(("midrun", st.isoformat(), 60, seed))
         out.append(("midrun_event", st.isoformat(), 60, seed))
         out.append(("import", st.isoformat(), seed))
+    # ---- configured Earth-orientation source: every offline way of selecting a table x every listed start
+    for cfg_name in EOP_CONFIGS:
+        for st in _eop_config_starts(seed):
+            out.append(("eop_config", cfg_name, st.isoformat(), seed))
     for year in _sweep_years(tier):
         for month in range(1, 13):
             out.append(("calendar", year, month, 1))
@@ -615,6 +628,17 @@ def bounds(tier, seed):
         "tolerances": {"position_km": TOL_POS_KM, "velocity_kms": TOL_VEL_KMS, "velocity_rate_lod_kms": TOL_VEL_STRICT_KMS,
                        "day_of_year_day": TOL_DOY_DAY, "rotation_per_step_rad": "2 * position_km / distance from the axis"},
         "eop_table": [EOP_FIRST.isoformat(), EOP_LAST.isoformat()],
+        "eop_config": {
+            "configured_sources": {k: list(v) for k, v in EOP_CONFIGS.items()},
+            "not_enumerated": "RemoteDotDatEOPLoader (network)",
+            "configured_table_span": [EOP_PREDICTED_FIRST.isoformat(), EOP_PREDICTED_LAST.isoformat()],
+            "starts": [d.isoformat() for d in _eop_config_starts(seed)],
+            "steps_s": EOP_CONFIG_STEPS,
+            "elapsed_steps_k": EOP_CONFIG_KS,
+            "sites": "scenario_sites",
+            "shifted_table": {"dut1_plus_s": SHIFT_DUT1_S, "xp_plus_arcsec": SHIFT_XP_AS},
+            "nontrivial_if_tables_apart_km": EOP_DISTINCT_KM,
+        },
     }
 
 
@@ -993,6 +1017,191 @@ def _run_import(res, item):
                 res.observe(float(agent.time), np.asarray(agent.ecef_state, dtype=float))
 
 
+# ------------------------------------------------------------------------------------------------ configured EOP source
+# The behavioural configuration ([eop] LoaderName / LoaderLocation) selects the Earth-orientation table.  "Fixed at the
+# configured geodetic location" is meant w.r.t. the table the user configured, so every documented offline way of selecting a
+# table is enumerated and the reported states are compared with the independent FK5 model fed by the harness' OWN parse of that
+# very table.  (RemoteDotDatEOPLoader needs a network and is not enumerated.)
+#   module_predicted         packaged loader, the other table that ships with the package (EOP_Predicted.dat)
+#   local_copy_of_predicted  local-file loader, byte copy of that table at an absolute path in a scratch directory
+#   local_shifted_predicted  local-file loader, a table that exists nowhere in the package: the predicted table rewritten by the
+#                            harness with UT1-UTC + 0.010 s and x_p + 0.1 arcsec (4.6 m / 3 m of displacement)
+#   module_default_explicit  control: the default table named explicitly
+EOP_CONFIGS = {
+    "module_predicted": ("ModuleDotDatEOPLoader", "packaged"),
+    "local_copy_of_predicted": ("LocalDotDatEOPLoader", "copy"),
+    "local_shifted_predicted": ("LocalDotDatEOPLoader", "shifted"),
+    "module_default_explicit": ("ModuleDotDatEOPLoader", "default"),
+}
+EOP_PREDICTED_FIRST = date(2021, 10, 6)
+EOP_PREDICTED_LAST = date(2022, 4, 4)
+EOP_CONFIG_STEPS = [60, 300]
+EOP_CONFIG_KS = [0, 1, 2, 288]  # up to one day elapsed (300 s), always across the next midnight from the listed starts
+SHIFT_DUT1_S = 0.010
+SHIFT_XP_AS = 0.1
+# an ignored / mixed-up table is only visible where the tables differ: a case is non-trivial iff the independent reference
+# position under the configured table is more than 2 m (twice the property's bound) from the one under the default table
+EOP_DISTINCT_KM = 2.0 * TOL_POS_KM
+
+
+def _eop_config_starts(seed):
+    """Start instants inside the predicted table (2021-10-06 .. 2022-04-04) with a day of room: first day, both sides of a
+    year end, the leap window of a common year, the last midnight of the table, and one seed-chosen day/second."""
+    span = (date(2022, 4, 2) - date(2021, 10, 7)).days
+    d = date(2021, 10, 7) + timedelta(days=(seed * 7919 + 1777) % span)
+    sod = (seed * 613 + 421) % 86400
+    return [
+        datetime(2021, 10, 6, 0, 0, 0),
+        datetime(2021, 12, 31, 23, 59, 30),
+        datetime(2022, 2, 28, 23, 50, 30),
+        datetime(2022, 4, 2, 5, 17, 23),
+        datetime(2022, 4, 3, 23, 50, 30),
+        datetime(d.year, d.month, d.day) + timedelta(seconds=sod),
+    ]
+
+
+def _parse_eop_file(path):
+    """Own parse of a '.dat' EOP table (same column meaning as frames_ref.eop_table, any file)."""
+    tab = {}
+    with open(path, encoding="utf-8") as fh:
+        for line in fh:
+            tok = line.split()
+            if not tok:
+                continue
+            d = date(int(tok[0]), int(tok[1]), int(tok[2]))
+            if d in tab:
+                raise ValueError(f"duplicate EOP row {d}")
+            tab[d] = (float(tok[4]), float(tok[5]), float(tok[6]), float(tok[7]), float(tok[8]), float(tok[9]), int(float(tok[12])))
+    return tab
+
+
+def _fk5_from_row(dt, row):
+    xp, yp, dut1, lod, dpsi, deps, dat = row
+    return fr.FK5(dt, xp * fr.ARCSEC, yp * fr.ARCSEC, dut1, lod, dpsi * fr.ARCSEC, deps * fr.ARCSEC, dat)
+
+
+def _make_eop_source(kind, tmp):
+    """(LoaderLocation to configure, path of the file the harness parses as the expectation)."""
+    import os  # noqa: PLC0415
+    import shutil  # noqa: PLC0415
+
+    packaged = fr._data_path("eop", "EOP_Predicted.dat")  # noqa: SLF001
+    if kind == "packaged":
+        return "EOP_Predicted.dat", packaged
+    if kind == "default":
+        return "EOPdata.dat", fr._data_path("eop", "EOPdata.dat")  # noqa: SLF001
+    if kind == "copy":
+        path = os.path.join(tmp, "my_eop_table.dat")
+        shutil.copyfile(packaged, path)
+        return path, path
+    path = os.path.join(tmp, "shifted_eop_table.dat")
+    with open(packaged, encoding="utf-8") as src, open(path, "w", encoding="utf-8") as dst:
+        for line in src:
+            tok = line.split()
+            if not tok:
+                continue
+            tok[4] = f"{float(tok[4]) + SHIFT_XP_AS:.6f}"
+            tok[6] = f"{float(tok[6]) + SHIFT_DUT1_S:.7f}"
+            dst.write(" ".join(tok) + "\n")
+    return path, path
+
+
+def _run_eop_config(res, item):
+    import os  # noqa: PLC0415
+    import shutil  # noqa: PLC0415
+    import tempfile  # noqa: PLC0415
+
+    from resonaate.common.behavioral_config import BehavioralConfig  # noqa: PLC0415
+    from resonaate.physics.transforms.eops import getEarthOrientationParameters  # noqa: PLC0415
+
+    _, cfg_name, start_iso, seed = item
+    loader_name, kind = EOP_CONFIGS[cfg_name]
+    start = datetime.fromisoformat(start_iso)
+    sites = _sites(seed, full=False)
+    shared = "_BehavioralConfig__shared_inst"
+    original = BehavioralConfig.getConfig()
+    tmp = tempfile.mkdtemp(prefix="verif_c11_eop_", dir="/tmp")  # noqa: S108
+    try:
+        location, ref_path = _make_eop_source(kind, tmp)
+        table = _parse_eop_file(ref_path)
+        cfg_path = os.path.join(tmp, "behavior.config")
+        with open(cfg_path, "w", encoding="utf-8") as fh:
+            fh.write(f"[eop]\nLoaderName = {loader_name}\nLoaderLocation = {location}\n")
+        # the documented way: the first getConfig(path) of a process decides the behavioural configuration
+        setattr(BehavioralConfig, shared, None)
+        conf = BehavioralConfig.getConfig(cfg_path)
+        base = {"eop_config": cfg_name, "loader": loader_name, "start": start_iso}
+        res.case(
+            "eop_config/config_read",
+            base,
+            conf.eop.LoaderName == loader_name and conf.eop.LoaderLocation == location,
+            signature="C11/eop_config/config_read",
+            observed={"LoaderName": conf.eop.LoaderName},
+            expected={"LoaderName": loader_name},
+            item=item,
+        )
+        # the values the library hands out for the configured source (implicit = from the configuration, explicit = the same
+        # source named in the call) against the harness' own parse, on every day the runs below touch
+        for off in (0, 1):
+            day = (start + timedelta(days=off)).date()
+            want = table[day]
+            for how, args in (("implicit", ()), ("explicit", (loader_name, location))):
+                case = {**base, "day": day.isoformat(), "lookup": how}
+                ok, eop = _guard(res, "eop_config/table_values", case, item, getEarthOrientationParameters, day, *args)
+                if not ok:
+                    continue
+                got = (eop.x_p / fr.ARCSEC, eop.y_p / fr.ARCSEC, eop.delta_ut1, eop.length_of_day, eop.d_delta_psi / fr.ARCSEC,
+                       eop.d_delta_eps / fr.ARCSEC, eop.delta_atomic_time)
+                # arc second <-> radian round trip in doubles: relative 1e-15; the tables differ from the 4th decimal on
+                good = all(abs(g - w) < 1e-9 for g, w in zip(got, want))
+                res.case(
+                    "eop_config/table_values",
+                    case,
+                    good,
+                    nontrivial=kind != "default",
+                    signature=f"C11/eop_config/table_values/{how}",
+                    observed=list(got),
+                    expected=list(want),
+                    outcome="configured_table" if good else "other_values",
+                    item=item,
+                )
+                res.observe(list(got))
+        for step in EOP_CONFIG_STEPS:
+            worker_init()
+            cfg = ScenarioConfig(**_scenario_config(start, step, 2, sites))
+            clock = ScenarioClock.fromConfig(cfg.time)
+            agents = []
+            for sen_cfg, site in zip(cfg.engines[0].sensors, sites):
+                case0 = {**base, "lat": site[0], "lon": site[1], "alt": site[2], "step": step}
+                ok, dyn = _guard(res, "eop_config/build", case0, item, dynamicsFactory, sen_cfg, cfg.propagation,
+                                 cfg.geopotential, cfg.perturbations, clock)
+                if not ok:
+                    continue
+                ok, agent = _guard(res, "eop_config/build", case0, item, SensingAgent.fromConfig, sen_cfg, clock, dyn, cfg.propagation)
+                if ok:
+                    agents.append((agent, site))
+            for k in EOP_CONFIG_KS:
+                elapsed = k * step
+                dt = start + timedelta(seconds=elapsed)
+                ins = Instant(dt, _fk5_from_row(dt, table[dt.date()]))
+                default_ref = instant(dt).fk5
+                for agent, site in agents:
+                    case = {**base, "lat": site[0], "lon": site[1], "alt": site[2], "step": step, "k": k, "elapsed": elapsed}
+                    if k > 0:
+                        agent.time = ScenarioTime((k - 1) * step)
+                        if not _guard(res, "eop_config", case, item, _real_step, agent)[0]:
+                            continue
+                    e6 = np.concatenate((site_ecef(*site), np.zeros(3)))
+                    apart = _maxabs(ins.fk5.ecef_to_eci(e6)[:3] - default_ref.ecef_to_eci(e6)[:3])
+                    nontriv = apart > EOP_DISTINCT_KM
+                    sub = "eop_config/initial" if k == 0 else "eop_config"
+                    audit_state(res, sub, case, agent.eci_state, dt, site, item, nontrivial=nontriv, step=step, ins=ins)
+                    audit_agent_views(res, sub, case, agent, dt, elapsed, site, item, nontrivial=nontriv)
+    finally:
+        setattr(BehavioralConfig, shared, original)
+        shutil.rmtree(tmp, ignore_errors=True)
+
+
 def _raised_by_library(exc) -> bool:
     """True iff the innermost harness-or-library frame of the traceback is library code (resonaate package)."""
     import traceback  # noqa: PLC0415
@@ -1041,5 +1250,6 @@ _RUNNERS.update(
     midrun=_run_midrun,
     midrun_event=_run_midrun_event,
     calendar=_run_calendar,
+    eop_config=_run_eop_config,
 )
 _RUNNERS["import"] = _run_import
